@@ -415,3 +415,6 @@ Proof.
   rewrite P; [reflexivity| |exact I].
   pose proof (size_bound_jprint v). lia.
 Qed.
+
+Lemma jprint_obj_head m : exists r, jprint (JObj m) = 123 :: r.
+Proof. destruct m as [|[k x] m]; simpl; eauto. Qed.
